@@ -212,6 +212,14 @@ func bitSize(t types.Type) int {
 	return Width
 }
 
+// Bind gives a parameter (of an inlined helper) the value it has at the call site.
+func (e *Env) Bind(p *ssa.Parameter, v Vec) {
+	if e.bind == nil {
+		e.bind = map[*ssa.Parameter]Vec{}
+	}
+	e.bind[p] = v
+}
+
 // Eval computes the abstract value of v.
 func (e *Env) Eval(v ssa.Value) Vec { return e.eval(v, 0) }
 
